@@ -196,3 +196,47 @@ def representative_blocks_of_three_core_blocks(k1: int, k2: int, k3: int, pregen
     """the same for three blocks (all 512 combinations) with the block-type filter on (so that groups without eligible
     member occur together with represented groups of the same type), type B pre-generated or not"""
     representative_case(3, [k1, k2, k3], True, pregenB, False)
+
+
+# ------------------------------------------------------------------------------------------ free XS type letters
+class TypedBlk:
+    pass
+
+
+class NotWindows:
+    """stand-in for the module sys: a platform other than Windows (there a warning about letter case is logged)"""
+
+    platform = "linux"
+
+
+USED_POOL = ["A", "B", "a", "z"]
+EXCLUDED_POOL = ["A", "C", "b", "z"]
+
+
+@lemma(gen={"na": (0, 3), "a1": (0, 3), "a2": (0, 3), "a3": (0, 3), "x1": (0, 3), "howMany": (1, 3)},
+       overrides={"armi.physics.neutronics.crossSectionGroupManager:sys": "NotWindows"})
+def next_available_xs_types_are_unused_letters(na: int, a1: int, a2: int, a3: int, x1: int, howMany: int, exclude: bool, almostFull: bool):
+    """getNextAvailableXsTypes: a core of 0..3 blocks (enumerated) whose XS types are any of A, B, a, z (enumerated),
+    optionally one excluded letter out of A, C, b, z, 1..3 letters requested; or (almostFull) a core using all 52
+    letters but 'q' and 'Z': the result has the requested number of DISTINCT admissible letters, none of them in use
+    or excluded, namely the first free ones in sorted order; too few free letters -> ValueError"""
+    letters = xsgm._ALLOWABLE_XS_TYPE_LIST
+    na = choose(na, 0, 3)
+    howMany = choose(howMany, 1, 3)
+    if almostFull:
+        used = [c for c in letters if c not in ("q", "Z")]
+        excluded = None
+    else:
+        used = [USED_POOL[choose(a, 0, 3)] for a in [a1, a2, a3][:na]]
+        excluded = [EXCLUDED_POOL[choose(x1, 0, 3)]] if exclude else None
+    m = new(Manager, r=new(Holder, core=new(Holder, blocks=[new(TypedBlk, p=new(Params, xsType=t)) for t in used])))
+    free = sorted(c for c in letters if c not in used and (excluded is None or c not in excluded))
+    try:
+        got = m.getNextAvailableXsTypes(howMany, excluded)
+        refused = False
+    except ValueError:
+        refused = True
+    assert refused == (len(free) < howMany)
+    if not refused:
+        assert got == free[:howMany], "the first free letters"
+        assert len(set(got)) == howMany and all(c in letters and c not in used for c in got)
